@@ -272,6 +272,7 @@ def execute(trace, ctx):
 
     kernel.NET = kernel.refuse_network(SimNet(ROUTES, stats=ctx.faults))
     lazies = {}
+    prepared_queries = {}
 
     def target(op):
         if op.get("on") == "view" and kind != "graph":
@@ -489,8 +490,14 @@ def execute(trace, ctx):
         if w == "prepared-query":
             from rdflib.plugins.sparql.processor import prepareQuery
 
-            pq = prepareQuery(QUERIES[0] % fmt)
-            return norm_rows(t.query(pq)), False
+            # one prepared object per text for the whole run: evaluating it must leave nothing behind that changes the next evaluation
+            texts_ = [QUERIES[0] % fmt, "SELECT ?s ?p ?o WHERE { ?s ?p ?o } ORDER BY ?p DESC(?o) ?s LIMIT 2", "SELECT ?o ?s WHERE { ?s ?p ?o } ORDER BY ?o ?s ?p LIMIT 3"]
+            tx = texts_[(op["uid"] if not second else op["uid"]) % 3 if op.get("pat", [None])[0] is None else 0]
+            if tx not in prepared_queries:
+                prepared_queries[tx] = prepareQuery(tx)
+            ctx.probe("prepared-query-object-reused")
+            res_ = t.query(prepared_queries[tx])
+            return ("ordered", [tuple(key(x) if x is not None else None for x in row) for row in res_]) if "ORDER BY" in tx else norm_rows(res_), False
         if w == "isomorphic-copy":
             g0 = t if not isds else Graph(store, gname)
             cp = Graph()
